@@ -80,7 +80,7 @@ pub fn replay(args: &[String]) {
             log.borrow_mut().clear();
             if std::env::var("VH_TRACE").is_ok() { eprintln!("TRY {} {:?} {}", cmd, shape, cx); }
             let t0 = std::time::Instant::now();
-            let (res, halted) = run_timed(&script, ctx0.clone(), 10000);
+            let (res, halted) = run_timed(&script, ctx0.clone(), 30000);
             if t0.elapsed().as_millis() > 30 { eprintln!("SLOW {}ms {} {:?} {}", t0.elapsed().as_millis(), cmd, shape, cx); }
             let _ = std::env::set_current_dir(&dir);
             if halted {
@@ -168,7 +168,7 @@ pub fn record(args: &[String]) {
             let script = format!("{} = {} {}\n", outvar, cmd, args_txt.join(" "));
             let before = kv(&ctx.variables);
             let hb = handles(&ctx);
-            let (res, halted) = run_timed(&script, ctx.clone(), 10000);
+            let (res, halted) = run_timed(&script, ctx.clone(), 30000);
             let _ = std::env::set_current_dir(&dir);
             let (err, c2) = if halted { ("hang".to_string(), ctx.clone()) } else { match res { Err(p) => (format!("panic {}", p), ctx.clone()), Ok(Err(e)) => (format!("run failed {}", e), ctx.clone()), Ok(Ok(c)) => (String::new(), c) } };
             let o = c2.variables.get(outvar).cloned();
